@@ -212,6 +212,33 @@ CLAIMED["C15"] = (
     "DESIGN.md §5 C15",
 )
 
+CLAIMED["C07"] = (
+    "Kernel-checked theorems on the data plane: for EVERY value list (any length, missing values anywhere) the reader applied "
+    "to the point cache the writer emits returns exactly the list supplied and the announced count is its length; the idx / "
+    "order value given to a cloned series is larger than every value in use.  Tied to the code by exact comparison of the "
+    "value caches with the model for every writable chart type (probed) x seeded data x replace_data sequences, and by "
+    "oracles on the real output: chart part validated with lxml against dml-chart.xsd (after markup-compatibility "
+    "preprocessing), names / values / categories / flattened hierarchy labels against the data supplied (root-to-leaf paths "
+    "of the supplied tree), idx/order uniqueness, formatting of surviving series kept by replace_data.",
+    "Category hierarchies (levels/idx vs the reader's parentage rule) and XML validity are oracle-checked, not proved; three "
+    "genuine template defects are listed as known findings (negative axId values, c:smooth in radar series, single-series pie).",
+    "Lean 4 proof (cache round trip by induction) + correspondence + XSD/read-back oracles",
+    "DESIGN.md §5 C07",
+)
+CLAIMED["C08"] = (
+    "Kernel-checked theorems on the worksheet layout: the column letters computed for column n name column n for ALL n "
+    "(bijective base 26, beyond Z / ZZ / any length; induction on the loop), hence distinct columns get distinct letters; for "
+    "every category depth, series position and length the values reference covers exactly the cells the values were written "
+    "to and the name reference is the cell the name went to; categories of every level lie inside the categories range; XY / "
+    "bubble row offsets accumulate so that tables of different series never overlap and each reference covers exactly the "
+    "rows written.  Tied to the code by comparing every reference string with the model and by resolving every reference of "
+    "the real chart XML against the embedded workbook read directly from its zip: range size = ptCount, cached point = cell.",
+    "Trusted: XlsxWriter's cell encoding and date conversion (read back from the file), the minimal xlsx reader; empty series "
+    "ranges are a listed known finding.",
+    "Lean 4 proof (column-letter bijection, layout arithmetic) + reference/workbook correspondence",
+    "DESIGN.md §5 C07/C08",
+)
+
 NOT_YET = {}
 
 
